@@ -10,7 +10,7 @@ from . import tlc
 CFG_DEFAULTS = dict(
     routine="?", nenvs=1, budget=-1, start=0, eplimit=0, warmlearn=-1, warmact=-1, explore_only_in_warmup=False,
     ulpk=0, policy_probe=False, check_act=True, ret_applicable=False, trained=[], targets=[], frozen=[], autoreset=False,
-    epsilon4=-1, eps_switch=-1, rules=[], segment="add", check_term=True, check_next=True, check_bounds=True, pairs=[], hard_pairs=[], copy_groups=[],
+    epsilon4=-1, eps_switch=-1, expl_noise8=-1, rules=[], segment="add", check_term=True, check_next=True, check_bounds=True, pairs=[], hard_pairs=[], copy_groups=[],
 )
 RULE_DEFAULTS = dict(comps=[], counter="always", mod=1, rem=0, after=0, needs_sample=True)
 EV_DEFAULTS = dict(
@@ -20,6 +20,9 @@ EV_DEFAULTS = dict(
     # step events of value-based routines (envs.ScriptEnv.exec_probe): action values (float32 ordinals) of the routine's
     # current estimate at the observation the action is executed in; acti = the discrete action as an int (-1: none)
     has_q=False, qrow=[], acti=-1,
+    # step events of continuous-control routines with an exploration-noise parameter: pol = action of the routine's LIVE
+    # deterministic policy at the observation the action is executed in (float32 ordinals), evaluated by the environment
+    has_pol=False, pol=[],
     # learn_rows: rows handed to a learner (obs, act, r4, next, term, has = names of the fields the row carries);
     # experience: whole experience record of a model-based tabular learner (entries obs, act, next, n, rs), readable
     lrows=[], rec=[], readable=True,
@@ -44,7 +47,7 @@ def normalise(trace):
     evs = []
     for e in trace["events"]:
         n = dict(EV_DEFAULTS)
-        for k in ("ev", "env", "obs", "next", "r4", "term", "trunc", "after_end", "n", "key", "step", "chosen", "argmax", "current", "auto", "chk_next", "chk_term", "table_current", "start", "same", "rel", "rows", "aliased", "has_q", "qrow", "readable"):
+        for k in ("ev", "env", "obs", "next", "r4", "term", "trunc", "after_end", "n", "key", "step", "chosen", "argmax", "current", "auto", "chk_next", "chk_term", "table_current", "start", "same", "rel", "rows", "aliased", "has_q", "qrow", "readable", "has_pol", "pol"):
             if k in e:
                 n[k] = e[k]
         if "lrows" in e:
